@@ -96,7 +96,7 @@ func Read(r io.Reader) (geom.T, error) {
 		if err != nil {
 			return nil, err
 		}
-		if limit := wkbcommon.MaxGeometryElements[1]; limit >= 0 && int(n) > limit {
+		if limit := wkbcommon.MaxGeometryElements[1]; limit >= 0 && uint64(n) > uint64(limit) {
 			return nil, wkbcommon.ErrGeometryTooLarge{Level: 1, N: int(n), Limit: limit}
 		}
 		mp := geom.NewMultiPoint(layout).SetSRID(int(srid))
@@ -119,7 +119,7 @@ func Read(r io.Reader) (geom.T, error) {
 		if err != nil {
 			return nil, err
 		}
-		if limit := wkbcommon.MaxGeometryElements[2]; limit >= 0 && int(n) > limit {
+		if limit := wkbcommon.MaxGeometryElements[2]; limit >= 0 && uint64(n) > uint64(limit) {
 			return nil, wkbcommon.ErrGeometryTooLarge{Level: 2, N: int(n), Limit: limit}
 		}
 		mls := geom.NewMultiLineString(layout).SetSRID(int(srid))
@@ -142,7 +142,7 @@ func Read(r io.Reader) (geom.T, error) {
 		if err != nil {
 			return nil, err
 		}
-		if limit := wkbcommon.MaxGeometryElements[3]; limit >= 0 && int(n) > limit {
+		if limit := wkbcommon.MaxGeometryElements[3]; limit >= 0 && uint64(n) > uint64(limit) {
 			return nil, wkbcommon.ErrGeometryTooLarge{Level: 3, N: int(n), Limit: limit}
 		}
 		mp := geom.NewMultiPolygon(layout).SetSRID(int(srid))
@@ -165,7 +165,7 @@ func Read(r io.Reader) (geom.T, error) {
 		if err != nil {
 			return nil, err
 		}
-		if limit := wkbcommon.MaxGeometryElements[1]; limit >= 0 && int(n) > limit {
+		if limit := wkbcommon.MaxGeometryElements[1]; limit >= 0 && uint64(n) > uint64(limit) {
 			return nil, wkbcommon.ErrGeometryTooLarge{Level: 1, N: int(n), Limit: limit}
 		}
 		gc := geom.NewGeometryCollection().SetSRID(int(srid))
